@@ -28,6 +28,26 @@ class _Mangle(ast.NodeTransformer):
         return node
 
 
+class _Unmangle(ast.NodeTransformer):
+    def __init__(self, cname):
+        self.prefix = "_" + cname.lstrip("_") + "__"
+
+    def _un(self, nm):
+        if nm.startswith(self.prefix) and not nm.endswith("__") and len(nm) > len(self.prefix):
+            return "__" + nm[len(self.prefix):]
+        return nm
+
+    def visit_Attribute(self, node):
+        self.generic_visit(node)
+        node.attr = self._un(node.attr)
+        return node
+
+    def visit_FunctionDef(self, node):
+        self.generic_visit(node)
+        node.name = self._un(node.name)
+        return node
+
+
 class _Subst(ast.NodeTransformer):
     def __init__(self, mapping):
         self.mapping = mapping
@@ -75,8 +95,9 @@ def flatten(trees):
                 k_init = next((m for m in K.body if isinstance(m, ast.FunctionDef) and m.name == "__init__"), None)
                 # the explicit base-constructor call in K.__init__
                 ok = True
-                if b_init is not None:
-                    if k_init is None or b_init.args.vararg or b_init.args.kwarg or b_init.args.kwonlyargs:
+                inherit_init = b_init is not None and k_init is None
+                if b_init is not None and not inherit_init:
+                    if b_init.args.vararg or b_init.args.kwarg or b_init.args.kwonlyargs:
                         continue
                     site = None
                     for i, st in enumerate(k_init.body):
@@ -117,7 +138,7 @@ def flatten(trees):
                 moved = []
                 for st in Bm.body:
                     if isinstance(st, ast.FunctionDef):
-                        if st.name == "__init__":
+                        if st.name == "__init__" and not inherit_init:
                             continue
                         if st.name in k_names:
                             clash = True
@@ -136,6 +157,8 @@ def flatten(trees):
                     continue        # (an override: the hierarchy matters, left as it is)
                 K.body.extend(moved)
                 K.bases[bi] = ast.Name(id="object", ctx=ast.Load())
+                # names the base spelled in K's mangled form by hand (`self._K__x`) are K's own private names (`self.__x`)
+                _Unmangle(K.name).visit(K)
                 other_refs = [n for t in trees.values() for n in ast.walk(t) if isinstance(n, ast.Name) and n.id == B.name]
                 if not other_refs:
                     tree.body = [x for x in tree.body if x is not B]
